@@ -211,7 +211,7 @@ PROFILE = {
                'monitor_clients': st.sampled_from([True, True, True, False])},
     'autopong': [True, True, False],
     'autopoll': [False, True],
-    'connect_outcomes': [None, None, None, None, None, None, None, ['ret', rm.tag(False)],
+    'connect_outcomes': [None, None, None, None, None, None, None, ['ret', rm.tag(False)], ['ret', {'t': 'unjson'}],
                          ['raise'], ['ret', rm.tag('no')]],
     'advance_modes': [('grid', 2), ('deadline', 2), ('long', 3)],
     'horizon': (3, 6),
